@@ -17,6 +17,7 @@ type ctxKey int
 const (
 	argsKey ctxKey = iota
 	isCompilingKey
+	isSandboxedKey
 )
 
 // InitCliCtx returns an arr.ai context with the arguments set from the CLI context.
@@ -54,6 +55,18 @@ func Args(ctx context.Context) []string {
 // whether compiling mode is on.
 func ContextWithIsCompiling(ctx context.Context, on bool) context.Context {
 	return context.WithValue(ctx, isCompilingKey, on)
+}
+
+// ContextWithIsSandboxed returns a context with a flag indicating whether source compiled under it
+// belongs to a sandboxed evaluation (//eval.eval and friends), which may not use import syntax.
+func ContextWithIsSandboxed(ctx context.Context, on bool) context.Context {
+	return context.WithValue(ctx, isSandboxedKey, on)
+}
+
+// IsSandboxed checks if the context belongs to a sandboxed evaluation.
+func IsSandboxed(ctx context.Context) bool {
+	is := ctx.Value(isSandboxedKey)
+	return is != nil && is.(bool)
 }
 
 // IsCompiling checks if the context is in compiling mode.
